@@ -28,6 +28,8 @@ inductive EOp where
   | drop (h : Nat)
   | detach (h n : Nat)
   | reduce (h : Nat)
+  | bset (h pos : Nat) (bytes : List Byte)        -- private copy + `mpt_buffer_set` without source elements
+  | bsetSrc (h pos k : Nat)                       -- the same with `k` source elements of the caller
 
 def execE (s : State) : EOp → Out Unit
   | .reserve h len t => (arrayReserve s h len (some t)).void
@@ -39,14 +41,14 @@ def execE (s : State) : EOp → Out Unit
   | .drop h => (arrayClone s h none).void
   | .detach h n => (detachOp s h n).void
   | .reduce h => (arrayReduce s h).void
+  | .bset h pos bytes => (bsetOp s h pos bytes false).void
+  | .bsetSrc h pos k => (bsetSrcE s h pos k).void
 
 /-- what the caller has to respect: handles exist; element types have constructor, destructor and at least 4
     bytes; `slice`/`insert` are applied to handles that hold a buffer (on an empty handle they create an untyped
-    buffer); `reserve` does not retype a private buffer to a type with the same destructor but another element
-    size -/
+    buffer) -/
 def EOp.pre (s : State) : EOp → Prop
-  | .reserve h _ t => h < s.hs.length ∧ Managed t ∧
-      ∀ b x tx, s.handle h = some b → s.buf? b = some x → x.traits = some tx → tx.fini = t.fini → tx.size = t.size
+  | .reserve h _ t => h < s.hs.length ∧ Managed t
   | .slice h _ _ => s.handle h ≠ none
   | .insert h _ _ => s.handle h ≠ none
   | .set h t _ _ _ => h < s.hs.length ∧ Managed t
@@ -55,10 +57,12 @@ def EOp.pre (s : State) : EOp → Prop
   | .drop h => h < s.hs.length
   | .detach _ _ => True
   | .reduce _ => True
+  | .bset _ _ _ => True
+  | .bsetSrc _ _ _ => True
 
 theorem execE_ok {s : State} (gs : GoodS [] s) (op : EOp) (pre : op.pre s) : OpOK [] s (execE s op) := by
   cases op with
-  | reserve h len t => exact (reserve_ok gs pre.1 len t pre.2.1 pre.2.2).void
+  | reserve h len t => exact (reserve_ok gs pre.1 len t pre.2).void
   | slice h off len =>
     cases hh : s.handle h with
     | none => exact absurd hh pre
@@ -73,6 +77,9 @@ theorem execE_ok {s : State} (gs : GoodS [] s) (op : EOp) (pre : op.pre s) : OpO
   | drop h => exact (clone_ok gs pre none).void
   | detach h n => exact (detachOp_ok gs h n).void
   | reduce h => exact (reduce_ok gs h).void
+  | bset h pos bytes =>
+    exact (bsetOp_ok gs h pos bytes false [] (by intro _ _ _ _ _ _ c; cases c) (by intro _ k hk; cases hk)).void
+  | bsetSrc h pos k => exact (bsetSrcE_ok gs h pos k).void
 
 /-! ### from the pointwise invariant to the live set of the spec -/
 
